@@ -10,7 +10,7 @@ CLAIM = ("Proved in Coq for the model: LogSpecification::parse is total (it cann
          "and is validated by the correspondence check, not proved). Tied to the code by the correspondence check: grammar-generated, "
          "malformed and arbitrary Unicode strings, builder-made specifications; compared: Ok/Err, carried filters, Display text, "
          "re-parsed filters, filters after a real to_toml/from_toml round trip.")
-THEOREMS = ["C17_parse_exact", "C17_parse_ok_iff"]  # + C17_display_roundtrip, C17_toml_roundtrip once proved
+THEOREMS = ["C17_parse_exact", "C17_parse_ok_iff", "C17_display_roundtrip", "C17_toml_roundtrip"]
 TRUSTED = ["modelled, not verified: str::split/trim/char::is_whitespace/to_lowercase (Unicode tables pinned in DESIGN appendix D), "
            "Vec::sort_by stability, HashMap/BTreeMap, the toml crate's text syntax, Regex::new (literal patterns only)"]
 ASSUMPTIONS = ["regex parts of generated strings are literal patterns or one of a few known-invalid patterns"]
